@@ -551,8 +551,9 @@ class Interpolation(object):
                     y = self.__call__(x)
                 else:
                     x = x - y / yp
-                    # Check if x is within the current [xl, xh] bracket
-                    if x < xl or x > xh:
+                    # Check if x is strictly inside the current [xl, xh] bracket
+                    # (a step landing on one of its ends does not shrink it)
+                    if x <= xl or x >= xh:
                         # Switch to linear interpolation
                         x = (xl * yh - xh * yl) / (yh - yl)
                         y = self.__call__(x)
